@@ -383,6 +383,27 @@ func (s *Sem) saturateBool(k Conj) Conj {
 				}
 			}
 		}
+		// x := a && b known to be true (or x := a || b known to be false): every operand of the merge but one is
+		// the constant that would make it false (true), so the remaining operand has the known value whichever
+		// way the path came
+		if phi, isPhi := f.X.(*ssa.Phi); isPhi {
+			var rest []ssa.Value
+			for _, e := range phi.Edges {
+				if c, isC := e.(*ssa.Const); isC && c.Value != nil && c.Value.Kind() == constant.Bool && constant.BoolVal(c.Value) != f.Pol {
+					continue
+				}
+				rest = append(rest, e)
+			}
+			if len(rest) == 1 {
+				if _, isC := rest[0].(*ssa.Const); !isC {
+					for _, nf := range s.C.F.CondFacts(rest[0], f.Pol) {
+						if !contradicts(out, nf) {
+							out = out.With(nf)
+						}
+					}
+				}
+			}
+		}
 	}
 	return out
 }
